@@ -85,7 +85,9 @@ theorem absorbDone_delivered {inp : RunInput} {s : Sys} : ∀ (ds : List Name) (
     · have hua' : unfinished s a = false := by simpa using hua
       simp only [hua', Bool.false_eq_true, if_false, if_true]
       rcases List.mem_cons.mp hd with rfl | hd'
-      · have g := (absorbDone_spec inp s true t (deliver inp (stOf s d) d (parentStatus (stOf s d) d nd))).1
+      · have g := (deliverF_grow inp (started s d) (stOf s d) d _).trans
+          (absorbDone_spec inp s true t (deliverF inp (started s d) (stOf s d) d
+            (deliver inp (stOf s d) d (parentStatus (stOf s d) d nd)))).1
         exact (deliver_delivered (stOf s d) d _ hg).mono g.dynTask g.dynCalc
       · exact ih _ d hd' hu hg
 
@@ -144,6 +146,10 @@ theorem wokenNode_dcn {inp : RunInput} {s : Sys} {nd : Node} (pst : RS) (p : Nam
         · exact e ⟨z, z ▸ y⟩
       exact (h c x hpa hg).mono hu.dynTask hu.dynCalc
     · exact absurd x hpr.1
+
+theorem wokenF_dcn {inp : RunInput} {s : Sys} {nd : Node} (pst : RS) (p : Name) (h : DCn inp s nd)
+    (hp : stOf s p = pst) : DCn inp s (wokenF inp s pst p nd) :=
+  (wokenNode_dcn pst p h hp).grow (wokenF_grow inp s pst p nd)
 
 /-- only the position changes, between two positions outside the calc_dep loop -/
 theorem DCn.setPc {inp : RunInput} {s : Sys} {nd : Node} (pc' : PC) (h : DCn inp s nd) (h1 : nd.pc.iterC = false) :
@@ -333,8 +339,8 @@ theorem dtick_allDC {inp : RunInput} {s s' : Sys} {perm : List Name} (h : AllDC 
 
 theorem wakeOne_allDC {inp : RunInput} {s : Sys} {pst : RS} {p w : Name} {nd : Node} (h : AllDC inp s)
     (hw : s.nodes w = some nd) (hp : stOf s p = pst) : AllDC inp (wakeOne inp s pst p w nd) := by
-  have hu := wokenNode_upd inp pst p nd
-  have base := allDC_setNode h (wokenNode_dcn pst p (h w nd hw) hp) (stOf_setNode_same hw hu.status)
+  have hu := wokenF_upd inp s pst p nd
+  have base := allDC_setNode h (wokenF_dcn pst p (h w nd hw) hp) (stOf_setNode_same hw hu.status)
   unfold wakeOne; split
   · exact allDC_congr base rfl
   · exact base
@@ -355,10 +361,10 @@ theorem updateWaiting_allDC {inp : RunInput} {pst : RS} {p : Name} :
       split at hs
       · cases hs
       · refine ih _ s' (wakeOne_allDC h hw hp) ?_ hs
-        have hu := wokenNode_upd inp pst p nd
+        have hu := wokenF_upd inp s pst p nd
         have e : ∀ x, stOf (wakeOne inp s pst p w nd) x = stOf s x := by
           intro x
-          have : (wakeOne inp s pst p w nd).nodes = (setNode s w (wokenNode inp pst p nd)).nodes := by
+          have : (wakeOne inp s pst p w nd).nodes = (setNode s w (wokenF inp s pst p nd)).nodes := by
             unfold wakeOne; split <;> rfl
           rw [stOf_congr this]; exact stOf_setNode_same hw hu.status x
         rw [e]; exact hp
